@@ -39,14 +39,40 @@ Proof. intros [m u v hs p f i]. reflexivity. Qed.
 Section Acquire.
 Variable requote : bytes -> option bytes.
 Variables (h : head) (q : reqd).
+(* callee [Url::update(&head.uri)] (actix-router/src/url.rs), statement by statement on the
+   [Url { uri, path }] part of the object: the stored URI is replaced, and the decoded-path cache
+   is assigned the quoter's answer WHATEVER it is -- also [None] ("nothing to decode"), which is
+   what makes [Url::path()] fall back to the new URI's own path and not to an earlier request's *)
+Definition exec_url (st : pool_stmt) (o : obj) : obj :=
+  match st with
+  | SUrlUriAssign =>
+      mkObj (o_head o) (h_uri h) (o_qpath o) (o_skip o) (o_segs o) (o_rids o) (o_matched o)
+            (o_app_data o) (o_conn o) (o_exts o) (o_id o)
+  | SUrlPathRequote =>
+      mkObj (o_head o) (o_uri o) (requote (h_uri h)) (o_skip o) (o_segs o) (o_rids o) (o_matched o)
+            (o_app_data o) (o_conn o) (o_exts o) (o_id o)
+  | _ => o
+  end.
+(* callee [Path::reset()] (actix-router/src/path.rs) *)
+Definition exec_path (st : pool_stmt) (o : obj) : obj :=
+  match st with
+  | SPathSkipZero =>
+      mkObj (o_head o) (o_uri o) (o_qpath o) 0 (o_segs o) (o_rids o) (o_matched o)
+            (o_app_data o) (o_conn o) (o_exts o) (o_id o)
+  | SPathSegsClear =>
+      mkObj (o_head o) (o_uri o) (o_qpath o) (o_skip o) [] (o_rids o) (o_matched o)
+            (o_app_data o) (o_conn o) (o_exts o) (o_id o)
+  | _ => o
+  end.
+Definition interp_url (l : list (pool_stmt * string)) (o : obj) : obj :=
+  fold_left (fun o p => guarded NO_GUARD (snd p) (exec_url (fst p)) o) l o.
+Definition interp_path (l : list (pool_stmt * string)) (o : obj) : obj :=
+  fold_left (fun o p => guarded NO_GUARD (snd p) (exec_path (fst p)) o) l o.
+
 Definition exec_obj (st : pool_stmt) (o : obj) : obj :=
   match st with
-  | SPathUpdateFromHeadUri =>
-      mkObj (o_head o) (h_uri h) (requote (h_uri h)) (o_skip o) (o_segs o) (o_rids o) (o_matched o)
-            (o_app_data o) (o_conn o) (o_exts o) (o_id o)
-  | SPathReset =>
-      mkObj (o_head o) (o_uri o) (o_qpath o) 0 [] (o_rids o) (o_matched o)
-            (o_app_data o) (o_conn o) (o_exts o) (o_id o)
+  | SPathUpdateFromHeadUri => interp_url URL_UPDATE o        (* the two calls run their callees' *)
+  | SPathReset => interp_path PATH_RESET o                   (* statement lists, read from the source *)
   | SRidsClear =>
       mkObj (o_head o) (o_uri o) (o_qpath o) (o_skip o) (o_segs o) [] (o_matched o)
             (o_app_data o) (o_conn o) (o_exts o) (o_id o)
@@ -105,3 +131,82 @@ Lemma tie_guards :
   forallb (fun p => String.eqb (snd p) NO_GUARD) ACQUIRE_REINIT = true /\
   forallb (fun p => String.eqb (snd p) DROP_GUARD) DROP_SCRUB = true.
 Proof. repeat split; reflexivity. Qed.
+Lemma tie_guards_callees :
+  forallb (fun p => String.eqb (snd p) NO_GUARD) URL_UPDATE = true /\
+  forallb (fun p => String.eqb (snd p) NO_GUARD) PATH_RESET = true.
+Proof. repeat split; reflexivity. Qed.
+
+(* ---- (d) Url::update on its own: whatever URI and decoded path the recycled object carried, the
+   Url afterwards is the one [Url::new(uri)] builds -- the decoded-path cache has no memory *)
+Lemma tie_url_update : forall requote (h : head) (o : obj),
+  let o' := interp_url requote h URL_UPDATE o in
+  o_uri o' = h_uri h /\ o_qpath o' = requote (h_uri h) /\
+  o' = mkObj (o_head o) (h_uri h) (requote (h_uri h)) (o_skip o) (o_segs o) (o_rids o) (o_matched o)
+             (o_app_data o) (o_conn o) (o_exts o) (o_id o).
+Proof. intros requote h [? ? ? ? ? ? ? ? ? ? ?]. repeat split; reflexivity. Qed.
+
+(* ---- (e) Path::reset on its own *)
+Lemma tie_path_reset : forall o : obj,
+  interp_path PATH_RESET o =
+  mkObj (o_head o) (o_uri o) (o_qpath o) 0 [] (o_rids o) (o_matched o)
+        (o_app_data o) (o_conn o) (o_exts o) (o_id o).
+Proof. intros [? ? ? ? ? ? ? ? ? ? ?]. reflexivity. Qed.
+
+(* ---- component table: which statement(s) of which block give each component of the handler's
+   view its value on a recycled object. [tie_components] proves, from the generated lists alone,
+   that after the pooled arm every component except [app_data] is a function of the NEW request
+   (h, q) only -- the old object [o] does not occur on the right-hand sides -- and that [app_data]
+   is what Drop left, i.e. one container. *)
+Definition component_resets : list (string * list pool_stmt) :=
+  [("headers, method, uri, version, peer_addr, connection flags (RequestHead)",
+      [SHeadAssign; SHeadHeadersClear; SHeadMethodDefault; SHeadUriDefault; SHeadVersion11;
+       SHeadPeerNone; SHeadFlagsEmpty]);
+   ("URI of Path<Url>", [SPathUpdateFromHeadUri; SUrlUriAssign]);
+   ("decoded path cache of Url (match_info().as_str(), routing input)", [SPathUpdateFromHeadUri; SUrlPathRequote]);
+   ("path parameters: skip", [SPathReset; SPathSkipZero]);
+   ("path parameters: segments", [SPathReset; SPathSegsClear]);
+   ("matched resource: ResourcePath ids", [SRidsClear]);
+   ("matched resource: fully-matched flag", [SMatchedFalse]);
+   ("request-local extensions", [SExtsAssign; SExtsClear]);
+   ("connection data", [SConnAssign; SConnNone]);
+   ("scoped app data stack", [SAppDataTruncate1])]%string.
+
+Definition stmt_eqb (a b : pool_stmt) : bool :=
+  match a, b with
+  | SHeadMethodDefault, SHeadMethodDefault | SHeadUriDefault, SHeadUriDefault
+  | SHeadVersion11, SHeadVersion11 | SHeadPeerNone, SHeadPeerNone
+  | SHeadFlagsEmpty, SHeadFlagsEmpty | SHeadHeadersClear, SHeadHeadersClear
+  | SPathUpdateFromHeadUri, SPathUpdateFromHeadUri | SPathReset, SPathReset
+  | SRidsClear, SRidsClear | SMatchedFalse, SMatchedFalse | SHeadAssign, SHeadAssign
+  | SConnAssign, SConnAssign | SExtsAssign, SExtsAssign
+  | SAppDataTruncate1, SAppDataTruncate1 | SExtsClear, SExtsClear | SConnNone, SConnNone
+  | SPush, SPush | SUrlUriAssign, SUrlUriAssign | SUrlPathRequote, SUrlPathRequote
+  | SPathSkipZero, SPathSkipZero | SPathSegsClear, SPathSegsClear => true
+  | _, _ => false
+  end.
+
+Definition all_source_stmts : list pool_stmt :=
+  map fst (HEAD_CLEAR ++ ACQUIRE_REINIT ++ DROP_SCRUB ++ URL_UPDATE ++ PATH_RESET).
+
+(* every statement the table names is present in the source (as read on this run) ... *)
+Lemma tie_component_stmts_present :
+  forallb (fun row => forallb (fun st => existsb (stmt_eqb st) all_source_stmts) (snd row))
+          component_resets = true.
+Proof. reflexivity. Qed.
+(* ... and every writing statement of the source is named by the table (nothing resets a field the
+   table does not know about; [SPush] writes no field) *)
+Lemma tie_component_stmts_complete :
+  forallb (fun st => stmt_eqb st SPush || existsb (fun row => existsb (stmt_eqb st) (snd row)) component_resets)
+          all_source_stmts = true.
+Proof. reflexivity. Qed.
+
+Lemma tie_components : forall requote (o : obj) (h : head) (q : reqd),
+  let o' := interp_acquire requote h q ACQUIRE_REINIT o in
+  o_head o' = h /\
+  o_uri o' = h_uri h /\ o_qpath o' = requote (h_uri h) /\
+  o_skip o' = 0 /\ o_segs o' = [] /\
+  o_rids o' = [] /\ o_matched o' = false /\
+  o_exts o' = q_exts q /\ o_conn o' = q_conn q /\
+  o_app_data o' = o_app_data o /\
+  o_app_data (fst (interp_drop DROP_SCRUB o)) = firstn 1 (o_app_data o).
+Proof. intros requote [? ? ? ? ? ? ? ? ? ? ?] h q. repeat split; reflexivity. Qed.
